@@ -78,11 +78,9 @@ lemma(
     "first-neg-range",
     props=["C16"],
     vars={"s": "bytes", "i": "int", "b": "int"},
-    hyps=[
-        "0 <= i <= len(s)",
-        # induction hypothesis (measure len(s) - i), for whatever balance the next step carries
-        "implies(i < len(s), forall(ints, lambda b2: i + 1 <= first_neg(s, i + 1, b2) <= len(s)))",
-    ],
+    hyps=["0 <= i <= len(s)"],
+    # induction hypothesis (measure len(s) - i), for whatever balance the next step carries
+    ih=["implies(i < len(s), forall(ints, lambda b2: i + 1 <= first_neg(s, i + 1, b2) <= len(s)))"],
     goal="i <= first_neg(s, i, b) <= len(s)",
     notes="induction step of: 0 <= i <= len(s) ==> i <= first_neg(s, i, b) <= len(s)",
 )
@@ -97,12 +95,11 @@ contract(
     # (the label clause `caret-unescaped iff de-escaping changed the span` needs data[start:end] == full_cmd across the cut, a
     #  slice-of-slice equality the solver does not establish in budget: it is checked by the bounded stand-in of C16 instead)
     ensures_each={**EACH, "type": "node.type == 'shell.cmd'"},
-    hints={"post-loop": ["start <= end"]},
     ensures={"fresh": FRESH, "distinct": DISTINCT},
     loops={
         2: Loop(
             index="j",
-            hints=["first-neg-range: j <= first_neg(at(pre_L2, full_cmd), j, parens) <= len(at(pre_L2, full_cmd))"],
+            hints=["first-neg-range: s=at(pre_L2, full_cmd); i=j; b=parens"],
             inv={
                 # the span ends at the first unbalanced closing parenthesis of the matched text (C16): the scan never runs past it
                 "not-past-the-cut": "first_neg(at(pre_L2, full_cmd), 0, 0) >= j",
